@@ -2,8 +2,14 @@ import NibabelModel.Model.C13
 import Driver.Util
 /-! Line-protocol driver for C13.
 
-`C13 run <A|P> <dt> <slope|_> <inter|_> <raw csv|-> <op;op;...|->`  → per-step observables joined by `|`,
-then ` F1` (the model's file never changes).
+`C13 run <A|P|C>[:<mmap T|F|c|r><file p|z|h><byte order n|s>] <dt> <slope|_> <inter|_> <raw csv|-> <op;op;...|->`
+(I/O suffix: the proxy's `mmap` argument, file kind path / compressed path / handle, native / swapped storage;
+default `Thn`)  → per-step observables joined by `|`,
+then ` F1` (the model's file never changes).  The driver runs the OBJECT-LEVEL model (`rstep` over a heap
+of header objects) from the constructor the code uses, with the three defensive copies the code makes
+(`Copies.code`): `A` = `Nifti1Image(arr, None, hdr)`, `P` = `from_file_map` (the caller's header is
+`img._load_cache['header']`), `C` = `ArrayProxy(file, hdr)` + `Nifti1Image(proxy, None, hdr)` with the
+caller keeping `hdr`.
 
 ops: `g<f|u|x><4|8|i>` get_fdata(fill|unchanged|bad caching, f4|f8|int16) · `d<f|u|x>` get_data ·
 `a` asarray(dataobj) · `s<a>,<b>,<c>` dataobj[a:b:c] (`_` = None) · `u` uncache · `e<k>` edit array k ·
@@ -81,22 +87,42 @@ def parseScale? (a b : String) : Option (Option (Int × Int)) :=
     | some x, some y => some (some (x, y))
     | _, _ => none
 
+def parseIO? (s : String) : Option IOp :=
+  match s.toList with
+  | [m, f, b] =>
+      match (if m = 'T' then some MMap.on else if m = 'F' then some MMap.off else if m = 'c' then some MMap.c
+             else if m = 'r' then some MMap.r else none),
+            (if f = 'p' then some FileKind.path else if f = 'z' then some FileKind.pathGz
+             else if f = 'h' then some FileKind.handle else none),
+            (if b = 'n' then some false else if b = 's' then some true else none) with
+      | some m, some f, some b => some ⟨m, f, b⟩
+      | _, _, _ => none
+  | _ => none
+
+/-- `K` or `K:<io>` -/
+def parseKind? (s : String) : Option (String × IOp) :=
+  match s.splitOn ":" with
+  | [k] => some (k, {})
+  | [k, io] => if k = "A" then none else (parseIO? io).map (fun x => (k, x))
+  | _ => none
+
 def handle : List String → String
-  | ["run", kind, dt, slope, inter, raw, ops] =>
-      match parseDT? dt, parseScale? slope inter, parseIntList? raw, parseOps? ops with
-      | some dt, some sc, some raw, some ops =>
+  | ["run", kindio, dt, slope, inter, raw, ops] =>
+      match parseKind? kindio, parseDT? dt, parseScale? slope inter, parseIntList? raw, parseOps? ops with
+      | some (kind, io), some dt, some sc, some raw, some ops =>
           let h : Hdr := ⟨sc, raw.length, dt⟩
-          let s0? : Option State :=
-            if kind = "A" then some (initArray ⟨dt, raw, false⟩ h)
-            else if kind = "P" then some (initProxy raw h)
+          let s0? : Option RState :=
+            if kind = "A" then some (rinitArray .code ⟨dt, raw, false⟩ h)
+            else if kind = "P" then some (rinitFileMap .code raw h io)
+            else if kind = "C" then some (rinitCtor .code raw h io)
             else none
           match s0? with
           | some s0 =>
               -- `dataobj[slice]` on an array image is outside the model: refuse loudly
-              if (trace s0 ops).any (fun o => o.res == .notApplicable) then "bad-op"
-              else "|".intercalate ((trace s0 ops).map showOut) ++ " F1"
+              if (rtrace s0 ops).any (fun o => o.res == .notApplicable) then "bad-op"
+              else "|".intercalate ((rtrace s0 ops).map showOut) ++ " F1"
           | none => "bad-op"
-      | _, _, _, _ => "bad-op"
+      | _, _, _, _, _ => "bad-op"
   | _ => "bad-op"
 
 end Nb.Drv.C13
